@@ -129,6 +129,9 @@ func genC04(r *sim.Rng) *c04Case {
 	}
 	if r.Chance(2, 3) {
 		c.Secondary = r.Pick([]string{"s3cr3t", "enable%s", "p.w*"})
+		if r.Chance(1, 3) {
+			c.OnAuth = int(sim.AuthNoAsk) // authenticated edges that grant the level without asking for the secret
+		}
 	}
 	hasCfg := false
 	for _, l := range c.Levels {
@@ -394,7 +397,7 @@ func runC04Case(id string, c *c04Case) {
 				needsAuth = true
 			}
 		}
-		if needsAuth && (c.Secondary == "" || c.OnAuth != 0) {
+		if needsAuth && (c.Secondary == "" || c.OnAuth == int(sim.AuthRejects)) {
 			cs.HypOK = false
 			expectMode = dev.Mode
 			continue
